@@ -113,18 +113,29 @@ def rule_T2(ctx: Ctx) -> None:
         and X.same_expr(r[0].value, "self._trim_if_unsolved_maze(untrimmed, not hasattr(maze, 'start_pos'), not hasattr(maze, 'solution'))")
     ctx.judge(t, ok, {"returns": X.U(r[0].value)[:120] if r else None}, "to_tokens sequences the four regions and trims by maze kind (untargeted: no start_pos; unsolved: no solution)")
     tr = ctx.index.func(f"{MT}.PromptSequencers._PromptSequencer._trim_if_unsolved_maze")
-    calls = [c for c in X.calls(tr.node) if dotted_of(c.func) == "tokens_between"]
-    ends = []
-    okc = True
-    for c in calls:
-        a = [X.U(x) for x in c.args]
-        inc = (X.U(N.kwarg(c, "include_start")), X.U(N.kwarg(c, "include_end")))
-        ends.append(a[2].split(".")[-1])
-        okc = okc and a[0] == "untrimmed" and a[1] == "VOCAB.ADJLIST_START" and inc == ("True", "True")
-    body = tr.node.body
-    ifs = [n for n in body if isinstance(n, ast.If)]
-    order_ok = len(ifs) == 2 and X.U(ifs[0].test) == "is_untargeted" and X.U(ifs[1].test) == "is_unsolved"
-    ctx.judge(tr, okc and ends == ["ADJLIST_END", "TARGET_END", "ORIGIN_END"] and order_ok, {"cut_points": ends},
+    from sa import dtable as DT
+
+    rows = DT.table(tr.node, {"untargeted": ["is_untargeted"], "unsolved": ["is_unsolved"], "has_target_region": ["VOCAB.TARGET_END in untrimmed"]})
+
+    def _cut(end):
+        def pred(o):
+            if o[0] != "return" or not isinstance(o[1], ast.Call) or dotted_of(o[1].func) != "tokens_between":
+                return False
+            c = o[1]
+            a = [N.arg_or_kw(c, 0, "tokens"), N.arg_or_kw(c, 1, "start_value"), N.arg_or_kw(c, 2, "end_value")]
+            inc = (N.arg_or_kw(c, 3, "include_start"), N.arg_or_kw(c, 4, "include_end"))
+            return all(x is not None for x in a) and X.U(a[0]) == "untrimmed" and X.U(a[1]) == "VOCAB.ADJLIST_START" and X.U(a[2]) == f"VOCAB.{end}" \
+                and all(isinstance(x, ast.Constant) and x.value is True for x in inc)
+        return pred
+
+    def expected(a):
+        if a["untargeted"]:
+            return _cut("ADJLIST_END")
+        if a["unsolved"]:
+            return _cut("TARGET_END") if a["has_target_region"] else _cut("ORIGIN_END")
+        return lambda o: o[0] == "return" and X.U(o[1]) == "untrimmed"
+    ok_t, rep = DT.judge_table(rows, expected)
+    ctx.judge(tr, ok_t, {"table": rep},
               "an untargeted maze keeps ADJLIST_START..ADJLIST_END; an unsolved one keeps up to TARGET_END (ORIGIN_END if there is no target region); a solved one everything",
               "a maze kind keeps regions it does not have (empty ORIGIN/TARGET/PATH delimiters) or loses one it has")
     tb = ctx.index.func(f"{TU}.tokens_between")
